@@ -194,7 +194,10 @@ def seeded(args):
                 continue
             env = dict(os.environ, PYTHONPATH=scratch, PYTHONDONTWRITEBYTECODE="1")
             rc_t, _ = run(["/venv/bin/python", "-m", "pytest", "-q", "-p", "no:cacheprovider", "-x"], env=env, cwd=scratch)
-            rc_d, _ = run(["/venv/bin/python", "-B", os.path.join(sdir, sid, "demo.py")], env=env, cwd=scratch, timeout=600)
+            is_refactoring = meta.get("detected") == "refactoring"
+            rc_d = 1
+            if not is_refactoring:
+                rc_d, _ = run(["/venv/bin/python", "-B", os.path.join(sdir, sid, "demo.py")], env=env, cwd=scratch, timeout=600)
             cmd = [sys.executable, "-B", os.path.join(ROOT, "run_check.py"), prop, "--repo", scratch, "--evidence-dir", "none", "--minimise-s", "10"]
             if args.runs:
                 cmd += ["--runs", str(args.runs)]
@@ -204,7 +207,7 @@ def seeded(args):
             expect_violation = meta.get("detected") == "yes"
             ok = (rc == 1) if expect_violation else (rc == 0)
             verdict = ("caught" if rc == 1 else "green") if rc in (0, 1) else "HARNESS-ERROR"
-            rows.append((sid, "tests %s" % ("pass" if rc_t == 0 else "FAIL"), "demo %s" % ("fails" if rc_d != 0 else "PASSES"), verdict, "as recorded" if ok else "UNEXPECTED", (first or note or [""])[0][:150]))
+            rows.append((sid, "tests %s" % ("pass" if rc_t == 0 else "FAIL"), ("refactoring" if is_refactoring else "demo %s" % ("fails" if rc_d != 0 else "PASSES")), verdict, "as recorded" if ok else "UNEXPECTED", (first or note or [""])[0][:150]))
             print(rows[-1])
             sys.stdout.flush()
             if not ok or rc_t != 0 or rc_d == 0:
